@@ -775,6 +775,54 @@ theorem c02_flat_pipeline (fenv : FEnv) (cfg : Cfg) (dest : Str) (fs : List Fiel
   rw [c02_engine_roundtrip fenv tbl _ vsegs hlex hok hfin]
   simp only [postAll_eq dest _ fs g hpost]
 
+/-- **C02 (any non-boolean field, end to end: what reaches `postprocess`).** In a flat dataclass,
+    if exactly one segment targets field `i` (action `i+1`), the raw value `postprocess` receives
+    for that field is the segment's converted values shaped by the field's `nargs` — wherever the
+    segment stands, whatever the other fields are. The per-annotation lemmas (`c02_field_list`,
+    `…_vtuple`, `…_tuple`, `…_enum`, `…_optional`) then say what `postprocess` makes of it. -/
+theorem c02_flat_field_raw (cfg : Cfg) (dest : Str) (fs : List FieldSpec)
+    (tbl : List Act) (htbl : tableOf cfg dest fs = some tbl)
+    (i : Nat) (hi : i < fs.length) (ao : ArgOpts) (hao : argOptions fs[i] = some ao)
+    (hbool : ao.isBool = false)
+    (pre post : List VSeg) (v : VSeg) (hv : v.seg.idx = i + 1)
+    (hpostd : ∀ w ∈ post, ∀ a, tbl[w.seg.idx]? = some a → a.dest ≠ dest ++ '.' :: fs[i].name) :
+    ((storeAll tbl (initNs tbl) (pre ++ v :: post)).lookup (dest ++ '.' :: fs[i].name)).getD
+      (defaultVal fs[i].default) = segVal ao.nargs v.vals := by
+  obtain ⟨a, hfa, hta⟩ := tableOf_get cfg dest fs tbl htbl i hi
+  obtain ⟨a', hfa', _, hdest, hnargs, _⟩ := fieldAct_store cfg dest fs[i] ao hao hbool
+  rw [hfa] at hfa'
+  cases hfa'
+  have hidx : tbl[v.seg.idx]? = some a := by rw [hv]; exact hta
+  have hlook := storeAll_written tbl (initNs tbl) pre post v a hidx
+    (fun w hw c hc' => by rw [hdest]; exact hpostd w hw c hc')
+  rw [hdest, hnargs] at hlook
+  rw [hlook]
+  rfl
+
+/-- **C02 (a heterogeneous `Tuple[T1,…,Tn]` field, end to end)**: the field's value in the parse
+    result is the tuple of the `n` converted values -/
+theorem c02_flat_tuple_field (cfg : Cfg) (dest : Str) (fs : List FieldSpec)
+    (tbl : List Act) (htbl : tableOf cfg dest fs = some tbl)
+    (i : Nat) (hi : i < fs.length) (bs : List BTy) (hne : allEq (bs.map ITy.base) = false)
+    (hty : fs[i].ty = { inner := .tuple (bs.map ITy.base), optional := false })
+    (hd : fs[i].default ≠ .value (.sc .none))
+    (pre post : List VSeg) (v : VSeg) (hv : v.seg.idx = i + 1) (hlen : 2 ≤ v.vals.length)
+    (hpostd : ∀ w ∈ post, ∀ a, tbl[w.seg.idx]? = some a → a.dest ≠ dest ++ '.' :: fs[i].name) :
+    postprocess fs[i] (((storeAll tbl (initNs tbl) (pre ++ v :: post)).lookup
+      (dest ++ '.' :: fs[i].name)).getD (defaultVal fs[i].default)) = .ok (.tuple v.vals) := by
+  obtain ⟨hopt, hpp⟩ := c02_field_tuple fs[i].name bs hne fs[i].default hd v.vals hlen
+  have hcongr := argOptions_congr fs[i]
+    { name := fs[i].name, ty := { inner := .tuple (bs.map ITy.base), optional := false }, default := fs[i].default }
+    hty rfl
+  cases hao : argOptions fs[i] with
+  | none => rw [← hcongr, hao] at hopt; simp at hopt
+  | some ao =>
+    rw [← hcongr, hao] at hopt
+    simp only [Option.map_some, Option.some.injEq, Prod.mk.injEq] at hopt
+    obtain ⟨hn, _, _, hb⟩ := hopt
+    rw [c02_flat_field_raw cfg dest fs tbl htbl i hi ao hao hb pre post v hv hpostd, hn, ← hpp]
+    exact postprocess_congr _ _ _ hty
+
 /-- **C02 (a `List[T]` field, end to end).** In a flat dataclass whose `i`-th field is
     `name: List[T]` (T a base type other than Any), if exactly one segment targets that field
     (action `i+1`) with the canonical tokens of `vs`, then the field's value in the parse result is
